@@ -67,6 +67,7 @@ pub fn lookup(name: &str) -> Option<(&'static str, ScenFn)> {
         "mtu" => (MTU_RULE, mtu as ScenFn),
         "hostile" => (HOSTILE_RULE, hostile as ScenFn),
         "frames" => (crate::frames::FRAMES_RULE, frames as ScenFn),
+        "gate" => (crate::scen_gate::GATE_RULE, crate::scen_gate::gate as ScenFn),
         "closedinj" => (crate::scen_conn::CLOSEDINJ_RULE, crate::scen_conn::closedinj as ScenFn),
         "offpath" => (crate::scen_conn::OFFPATH_RULE, crate::scen_conn::offpath as ScenFn),
         _ => return None,
